@@ -32,6 +32,7 @@ type cancelCtx struct {
 	parent   Context
 	done     *Chan[struct{}]
 	err      error
+	cause    error
 	children []*cancelCtx
 	deadline time.Time
 	hasDl    bool
@@ -75,6 +76,7 @@ func newCancelCtx(parent Context) *cancelCtx {
 		if p.err != nil {
 			// parent already cancelled: child is born cancelled
 			c.err = p.err
+			c.cause = p.cause
 			c.done.k.closed = true
 		} else {
 			p.children = append(p.children, c)
@@ -114,6 +116,13 @@ func (c *cancelCtx) cancelLocked(s *Sched, t *Thread, err error, first bool) {
 		return
 	}
 	c.err = err
+	if c.cause == nil {
+		if pc := parentCancelCtx(c.parent); pc != nil && pc.err != nil && pc.cause != nil {
+			c.cause = pc.cause
+		} else {
+			c.cause = err
+		}
+	}
 	if c.timer != nil {
 		c.timer.active = false
 	}
@@ -195,4 +204,57 @@ func (c *valueCtx) Value(k interface{}) interface{} {
 
 func WithValue(parent Context, key, val interface{}) Context {
 	return &valueCtx{parent, key, val}
+}
+
+// CancelCauseFunc mirrors context.CancelCauseFunc.
+type CancelCauseFunc func(cause error)
+
+func WithCancelCause(parent Context) (Context, CancelCauseFunc) {
+	c := newCancelCtx(parent)
+	return c, func(cause error) {
+		if c.err == nil && c.cause == nil {
+			c.cause = cause
+		}
+		c.cancel(Canceled)
+	}
+}
+
+// Cause mirrors context.Cause.
+func Cause(c Context) error {
+	if cc := parentCancelCtx(c); cc != nil {
+		if cc.cause != nil {
+			return cc.cause
+		}
+		return cc.err
+	}
+	return c.Err()
+}
+
+type withoutCancelCtx struct{ Context }
+
+func (withoutCancelCtx) Deadline() (time.Time, bool) { return time.Time{}, false }
+func (withoutCancelCtx) Done() *Chan[struct{}]       { return nil }
+func (withoutCancelCtx) Err() error                  { return nil }
+
+// WithoutCancel mirrors context.WithoutCancel.
+func WithoutCancel(parent Context) Context { return withoutCancelCtx{parent} }
+
+// AfterFunc mirrors context.AfterFunc: f runs in a thread of its own once ctx is done, unless stop was called first.
+func CtxAfterFunc(ctx Context, f func()) (stop func() bool) {
+	stopCh := Make[struct{}](0, "ctx.afterfunc.stop")
+	fired, stopped := false, false
+	Go("ctx.afterfunc", func() {
+		if Select(false, RecvCase(ctx.Done()), RecvCase(stopCh)) == 0 && !stopped {
+			fired = true
+			f()
+		}
+	})
+	return func() bool {
+		if fired || stopped {
+			return false
+		}
+		stopped = true
+		stopCh.Close()
+		return true
+	}
 }
